@@ -1,0 +1,39 @@
+//go:build verif
+
+package vgirpc
+
+import (
+	"reflect"
+
+	"github.com/apache/arrow-go/v18/arrow"
+)
+
+// Thin exported wrappers over the unexported struct<->Arrow mapping for the
+// /verif conformance harness (module TypeMap, properties C07/C08). Each
+// wrapper calls the real function and nothing else.
+
+// VerifSerializeStruct runs serializeVgirpcStruct.
+func VerifSerializeStruct(value any) ([]byte, error) { return serializeVgirpcStruct(value) }
+
+// VerifDeserializeParams runs deserializeParams.
+func VerifDeserializeParams(batch arrow.RecordBatch, target reflect.Type) (reflect.Value, error) {
+	return deserializeParams(batch, target)
+}
+
+// VerifStructToSchema runs structToSchema (memoised derivation).
+func VerifStructToSchema(t reflect.Type) (*arrow.Schema, error) { return structToSchema(t) }
+
+// VerifBuildStructSchema runs buildStructDesc (the uncached derivation walk)
+// and returns its schema and error.
+func VerifBuildStructSchema(t reflect.Type) (*arrow.Schema, error) {
+	d := buildStructDesc(t)
+	return d.Schema, d.Err
+}
+
+// VerifResultSchema runs resultSchema.
+func VerifResultSchema(t reflect.Type) (*arrow.Schema, error) { return resultSchema(t) }
+
+// VerifSerializeResult runs serializeResult.
+func VerifSerializeResult(schema *arrow.Schema, value any) (arrow.RecordBatch, error) {
+	return serializeResult(schema, value)
+}
